@@ -380,25 +380,37 @@ def agree(cs, ri, rm):
     return kresults_agree(ri, rm)
 
 
-def rr_conditioned(drv, cs, make_line, parser, impl_results, model_results):
-    """rainfall-runoff kernels are ill-conditioned on some inputs (C10): a disagreement beyond 1e-9 is accepted when the
-    model's own sensitivity to a 1e-14 relative perturbation of parameters and rainfall explains it (rrlib).
-    -> None (explained) or a description"""
+def rr_conditioned(drv, cs, make_line, parser, impl_results, model_results, info=None):
+    """rainfall-runoff kernels are ill-conditioned on some inputs (C10): a disagreement beyond the tolerance is accepted when
+    the model's own sensitivity to small relative perturbations explains it.  The sensitivity is measured with SEVERAL
+    perturbed model runs (rrlib.perturbed_cases: factors 1 +- 1e-14 and 1 +- 1e-13 on the parameters, on the parameters with
+    alternating sign, on the forcing and on the initial states) and, per time step, the largest deviation over all of them
+    counts -- a single one-sided perturbation misses half of the cases that sit on a floor()/comparison threshold.
+    -> None (explained; [info], if a dict, receives the largest amplification and the number of runs) or a description"""
     if cs['model'] not in RR:
         return 'not a rainfall-runoff model'
     rain = cs['inputs'][0]
     pet = cs['inputs'][1] if len(cs['inputs']) > 1 else []
-    ps2, rain2, pet2 = rrlib.perturb_case(cs['model'], cs['params'], rain, pet)
-    pc = dict(cs, params=ps2, inputs=[rain2] if len(cs['inputs']) == 1 else [rain2, pet2])
-    res = run_filtered(drv, [make_line(pc)], 'MODELCRASH')[0]
-    rps = parser(res)
-    if rps is None or len(rps) != len(model_results):
-        return 'perturbed model run failed: %s' % res[:80]
-    at = rrlib.abs_tol(cs['params'], cs['states'], rain) if hasattr(rrlib, 'abs_tol') else 1e-12
-    for ri, rm, rp in zip(impl_results, model_results, rps):
-        d = rrlib.conditioned_agree(ri, rm, rp, 1e-9, at)
+    pcs = rrlib.perturbed_cases(cs['model'], cs['params'], cs['states'], rain, pet)
+    weights = rrlib.perturbed_weights(cs['model'], cs['params'], cs['states'], rain, pet)
+    plines = [make_line(dict(cs, params=ps2, states=st2, inputs=[rain2] if len(cs['inputs']) == 1 else [rain2, pet2]))
+              for (_, ps2, st2, rain2, pet2) in pcs]
+    res = run_filtered(drv, plines, 'MODELCRASH')
+    rpss = [parser(r) for r in res]
+    keep = [(w, rps) for w, rps in zip(weights, rpss) if rps is not None and len(rps) == len(model_results)]
+    if not keep:
+        return 'perturbed model runs failed: %s' % res[0][:80]
+    at = rrlib.abs_tol(cs['params'], cs['states'], rain)
+    amp = 0.0
+    for k, (ri, rm) in enumerate(zip(impl_results, model_results)):
+        inf = {}
+        d = rrlib.conditioned_agree(ri, rm, [rps[k] for _, rps in keep], 1e-9, at, info=inf, weights=[w for w, _ in keep])
         if d:
             return d
+        amp = max(amp, inf.get('amplification', 0.0))
+    if info is not None:
+        info['amplification'] = amp
+        info['perturbed_runs'] = len(keep)
     return None
 
 
